@@ -30,6 +30,9 @@
 //	   if / is null / is defined / print / a copying set after every statement and in later
 //	   iterations                                                            -> fam_h.go
 //
+//	K  the for-header sequence as a filtered expression base|chain whose base may be empty while the
+//	   filtered value is not, against the same loop over a variable assigned by set -> fam_k.go
+//
 //	I  one for loop over lists whose Go element type is an interface but which are not []interface{}
 //	   (named list type, slice of a named interface, [N]interface{}, []fmt.Stringer, []error), in the
 //	   placements of family B and as elements of an outer list; also as if conditions  -> fam_i.go
@@ -105,7 +108,7 @@ func main() {
 	vlib.Main(vlib.Spec{
 		ID:    "C09",
 		Level: "exploration",
-		Rule: "every program of nine generated families inside the stated bounds is rendered on a fresh engine and compared with a reference interpreter " +
+		Rule: "every program of ten generated families inside the stated bounds is rendered on a fresh engine and compared with a reference interpreter " +
 			"written from the property statement: (A) if/elseif/else chains over every value class as context value and as literal; (B) one for loop " +
 			"(value or key,value header, with/without else, top level / inside an outer loop / over a variable assigned by set) over every list, string " +
 			"and range of the bound, printing index, index0, revindex, revindex0, first, last, length, key and value at every position; (C) every statement " +
@@ -118,11 +121,12 @@ func main() {
 			"(all seven counters, one counter, if condition, ?:, set value, inner loop header, include-with value, macro argument) x sequence x placement, the set variables printed after endfor; " +
 			"(H) assignments under an outer definition of the same name: every chain of assignments up to the length bound over {null, a null context value, an undefined name, none, 0, '', false, [], 'w', x = y, y = x, y = null, y = 'v'} as set and as do, and (HL) one loop with x as value / key variable over every list of the bound with null elements and `y = x` in its body, " +
 			"x where the body stands (template, block, macro body, macro body after caller sets, macro parameters, include, include only, include with) x (H) plain / taken if / taken else / second pass of a three-pass loop x what else defines x, y, z (nothing, engine globals, context variables, both) x how the variable is observed (if, is null, is defined, print, copy by set, all), every determined variable probed before the chain, after every statement, after the enclosing construct and in every later iteration; " +
-			"(I) one for loop over lists carried by Go slices / arrays whose element type is an interface but which are not []interface{} (a named list type, a slice of a named empty interface, [N]interface{}, []fmt.Stringer, []error, nil slices of these; every length of the bound) in the placements of (B) and as the elements of an outer list walked by an outer loop, all seven counters, key and value at every position, else exactly when empty, and the same lists as if conditions. " +
+			"(I) one for loop over lists carried by Go slices / arrays whose element type is an interface but which are not []interface{} (a named list type, a slice of a named empty interface, [N]interface{}, []fmt.Stringer, []error, nil slices of these; every length of the bound) in the placements of (B) and as the elements of an outer list walked by an outer loop, all seven counters, key and value at every position, else exactly when empty, and the same lists as if conditions; " +
+			"(K) the for-header sequence written as a filtered expression base|chain (base: null, undefined, empty list / map / string, small lists; chain: default, merge, sort, reverse, slice up to the chain bound) must render exactly as the same loop over a variable assigned base|chain by set. " +
 			"Non-trivial = A: the chain has at least two " +
 			"alternatives (elseif or else); B and I: the sequence has at least two elements, or is empty with an else branch (I as an element of an outer list / as an if condition: always); C: the reference execution enters a " +
 			"loop body or selects among at least two branches; D: a later assignment or print reads an earlier assignment; E: always (every read follows the assignment across a construct boundary); " +
-			"F: a loop body is entered while an iteration of a loop of an outer level is still being rendered; G: the body has at least one read of loop.* and at least one set/do; H/HL: a name the program assigns is also defined outside the body (global, context variable, caller set, macro parameter, include-with value)",
+			"F: a loop body is entered while an iteration of a loop of an outer level is still being rendered; G: the body has at least one read of loop.* and at least one set/do; K: the base alone has nothing to iterate, or the filtered value has nothing to iterate; H/HL: a name the program assigns is also defined outside the body (global, context variable, caller set, macro parameter, include-with value)",
 		Assumptions: []string{
 			"bounds: see coverage.bounds; programs larger than the size bound, lists longer than the length bound and ranges outside the grid are not explored",
 			"not demanded (statement silent): loop.* and loop variables after endfor and inside a for-else branch; range() whose step sign contradicts end-start, one-argument range; " +
@@ -153,7 +157,7 @@ func main() {
 			for _, fam := range []struct {
 				id  string
 				run func(*vlib.T)
-			}{{"A", runA}, {"B", runB}, {"I", runI}, {"G", runG}, {"D", runD}, {"E", runE}, {"H", runH}, {"HL", runHL}, {"F", runF}, {"CL", runCLate}, {"C", runC}} {
+			}{{"A", runA}, {"B", runB}, {"I", runI}, {"K", runK}, {"G", runG}, {"D", runD}, {"E", runE}, {"H", runH}, {"HL", runHL}, {"F", runF}, {"CL", runCLate}, {"C", runC}} {
 				if on(fam.id) {
 					fam.run(t)
 				}
@@ -174,6 +178,7 @@ func boundsDoc(tier string) map[string]interface{} {
 		"C": cBoundsDoc(th) + " Plus the " + cLateBoundsDoc(th) + ".",
 		"G": gBoundsDoc(th),
 		"I": iBoundsDoc(th),
+		"K": kBoundsDoc(th),
 		"E": fmt.Sprintf("every chain of 1..%d enclosing constructs from {if (taken), if/else (else taken), if/elseif (elseif taken), for over 3 elements, for over nothing with else} around the first assignment of a new variable, which is defined nowhere else or is also an engine global", eMaxDepth(th)),
 		"F": fBoundsDoc(th),
 		"H": hBoundsDoc(th),
